@@ -358,9 +358,9 @@ reg("C05", gen=gen_skel, obligation_files=["Props/C05.v", "Gen/Skel.v"],
              5: "timestamp + latency lies before the transport returned",
              6: "the plot (which re-orders results by sequence number and requires time not to decrease) refused results of the attack"},
     assumptions=["the stress is probabilistic: it samples the schedules the Go scheduler produces on this machine; the structural guarantee is the T2 obligation",
-                 "reduction from 'critical section' (same_section_sound) to 'atomic step' (hit_ordered) is argued, not mechanised"],
+                 "the Go memory model is not formalised: the interleaving semantics of the skeletons (Model/Skel.v, Model/SkelData.v) is sequentially consistent"],
     trusted_base=_T2_TB,
-    level_text="same_section_sound is proved in Coq for every skeleton, thread count and interleaving (the timestamp read, sequence read and increment form a critical section); hit_same_section is re-proved by reflection on the skeleton regenerated from the current source on every run; hit_ordered and ts_bounds are proved as invariants of the attack LTS where the section is one step. Tie: translator (T2) + stress runs judged by a checker defined in Coq.",
+    level_text="same_section_sound is proved in Coq for every skeleton, thread count and interleaving (the timestamp read, sequence read and increment form a critical section); section_orders_stamps mechanises the reduction: for every accepted skeleton, any number of threads, any interleaving and any clock that never runs backwards, the sequence numbers read are pairwise different and ordered like the timestamps (hit_stamps_ordered: for the skeleton regenerated from the current source); hit_same_section is re-proved by reflection on the skeleton regenerated from the current source on every run; hit_ordered and ts_bounds are proved as invariants of the attack LTS where the section is one step. Tie: translator (T2) + stress runs judged by a checker defined in Coq.",
     technique="Coq soundness proof of a static checker + reflection on a skeleton regenerated from source; LTS invariant; stress",
     timeout={"quick": 600, "thorough": 3000})
 reg("C15", gen=gen_skel, obligation_files=["Props/C15.v", "Gen/Skel.v"],
